@@ -6,6 +6,10 @@
 //	(local <tree>)        webdav.LocalFileSystem on a directory materialised from <tree>
 //	(mem <seek> <script>) a synthetic FileSystem that answers from a script and can
 //	                      hold arbitrary metadata
+//	(foreign <status> (r (h <href>..) (st <code>|-) (ps <code>|- (<prop> <val>)..)..)..)
+//	                      no webdav.Handler at all: a scripted multistatus as another
+//	                      server might send it (prop: rt clen lmod ctype etag x;
+//	                      val: (coll) (nocoll) (t <text>) (e)); only Stat and ReadDir
 //
 // Case line:
 //
@@ -567,6 +571,8 @@ func runCase(c caseIn, dir string) (line string) {
 		treeSx = davx.Snapshot(dir).Sx()
 		dmetaSx = dmetaOf(dir)
 		inner = webdav.LocalFileSystem(dir)
+	case "foreign":
+		// no FileSystem at all: the answer is scripted
 	default:
 		panic("bad backend")
 	}
@@ -578,7 +584,10 @@ func runCase(c caseIn, dir string) (line string) {
 			}
 		}
 	}
-	handler := &webdav.Handler{FileSystem: rec}
+	var handler http.Handler = &webdav.Handler{FileSystem: rec}
+	if c.backend.Head() == "foreign" {
+		handler = foreignHandler(c.backend)
+	}
 
 	var hc webdav.HTTPClient
 	endpoint := c.endpoint
@@ -671,6 +680,9 @@ func runCase(c caseIn, dir string) (line string) {
 	}
 
 	tb := newTables()
+	if c.backend.Head() == "foreign" {
+		tb.addForeign(c.backend)
+	}
 	for i := range rec.infos {
 		tb.addInfo(&rec.infos[i], local)
 	}
@@ -872,4 +884,134 @@ func bytesSx(b []byte, pattern bool) string {
 	}
 	flush()
 	return hx.L(items...)
+}
+
+// ---------------------------------------------------------------- foreign answers
+
+func xmlEsc(s string) string {
+	var b bytes.Buffer
+	xml.EscapeText(&b, []byte(s))
+	return b.String()
+}
+
+var foreignNames = map[string]string{"rt": "resourcetype", "clen": "getcontentlength", "lmod": "getlastmodified",
+	"ctype": "getcontenttype", "etag": "getetag"}
+
+func statusLine(code int64) string {
+	return fmt.Sprintf("HTTP/1.1 %d %s", code, http.StatusText(int(code)))
+}
+
+// foreignBody renders the scripted multistatus as XML text.
+func foreignBody(be hx.Sx) string {
+	var b strings.Builder
+	b.WriteString(`<?xml version="1.0" encoding="UTF-8"?><D:multistatus xmlns:D="DAV:">`)
+	for _, r := range be.Args()[1:] {
+		b.WriteString("<D:response>")
+		for _, part := range r.Args() {
+			switch part.Head() {
+			case "h":
+				for _, h := range part.Args() {
+					b.WriteString("<D:href>" + xmlEsc(h.Str()) + "</D:href>")
+				}
+			case "st":
+				if part.Args()[0].Atom != "-" {
+					b.WriteString("<D:status>" + statusLine(part.Args()[0].Int()) + "</D:status>")
+				}
+			case "ps":
+				b.WriteString("<D:propstat><D:prop>")
+				for _, pv := range part.Args()[1:] {
+					name := pv.List[0].Atom
+					val := pv.List[1]
+					open, close := "", ""
+					if name == "x" {
+						open, close = `<Z:other xmlns:Z="urn:verif:z">`, "</Z:other>"
+					} else {
+						open, close = "<D:"+foreignNames[name]+">", "</D:"+foreignNames[name]+">"
+					}
+					b.WriteString(open)
+					switch val.Head() {
+					case "coll":
+						b.WriteString("<D:collection/>")
+					case "t":
+						b.WriteString(xmlEsc(val.Args()[0].Str()))
+					}
+					b.WriteString(close)
+				}
+				b.WriteString("</D:prop>")
+				if part.Args()[0].Atom != "-" {
+					b.WriteString("<D:status>" + statusLine(part.Args()[0].Int()) + "</D:status>")
+				}
+				b.WriteString("</D:propstat>")
+			}
+		}
+		b.WriteString("</D:response>")
+	}
+	b.WriteString("</D:multistatus>")
+	return b.String()
+}
+
+func foreignHandler(be hx.Sx) http.Handler {
+	status := int(be.Args()[0].Int())
+	body := foreignBody(be)
+	return http.HandlerFunc(func(w http.ResponseWriter, r *http.Request) {
+		io.Copy(io.Discard, r.Body)
+		w.Header().Set("Content-Type", `application/xml; charset="utf-8"`)
+		w.WriteHeader(status)
+		io.WriteString(w, body)
+	})
+}
+
+// addForeign: the library decoders on every text of the scripted answer.
+func (t *tables) addForeign(be hx.Sx) {
+	for _, r := range be.Args()[1:] {
+		for _, part := range r.Args() {
+			switch part.Head() {
+			case "h":
+				for _, h := range part.Args() {
+					h2 := t.addText(h.Str())
+					var back verifhook.Href
+					if err := back.UnmarshalText([]byte(h2)); err != nil {
+						t.hrefDec[hx.S(h2)] = "-"
+					} else {
+						t.hrefDec[hx.S(h2)] = hx.S(back.Path)
+					}
+				}
+			case "ps":
+				for _, pv := range part.Args()[1:] {
+					if pv.List[1].Head() != "t" {
+						continue
+					}
+					txt := t.addText(pv.List[1].Args()[0].Str())
+					switch pv.List[0].Atom {
+					case "etag":
+						if u, err := strconv.Unquote(txt); err != nil {
+							t.unquote[hx.S(txt)] = "-"
+						} else {
+							t.unquote[hx.S(txt)] = hx.S(u)
+						}
+					case "lmod":
+						var pt verifhook.Time
+						if err := pt.UnmarshalText([]byte(txt)); err != nil {
+							t.timeParse[hx.S(txt)] = "-"
+						} else {
+							tt := time.Time(pt)
+							t.timeParse[hx.S(txt)] = hx.L(hx.I(tt.Unix()), hx.I(int64(tt.Nanosecond())))
+						}
+					}
+				}
+			}
+		}
+	}
+	// an empty property element
+	t.addText("")
+	t.unquote[hx.S("")] = "-"
+	if _, err := strconv.Unquote(""); err == nil {
+		t.unquote[hx.S("")] = hx.S("")
+	}
+	var pt verifhook.Time
+	if err := pt.UnmarshalText(nil); err != nil {
+		t.timeParse[hx.S("")] = "-"
+	} else {
+		t.timeParse[hx.S("")] = hx.L(hx.I(time.Time(pt).Unix()), hx.I(int64(time.Time(pt).Nanosecond())))
+	}
 }
